@@ -164,11 +164,19 @@ package shard
 //@   pureeffect
 //@   requires [cached_copies_dropped_before_metadata] withWriteCache() ==> cacheDropAttempted()
 //@   defines err == nil ==> metaRemoved()
-//@ callrule c09_blob_after_metadata in (*Shard).deleteObjs
+// (in every function of the shard: a helper that deletes blobs must carry the fact as its own
+// precondition; Put's roll-back after a failed metadata write is the one other legitimate place)
+//@ ghost pred metaPutFailed() bool
+//@ callrule c15_metadata_write_verdict in (*Shard).Put
+//@   property C09, C15
+//@   callee (*metabase.DB).PutCounted
+//@   pureeffect
+//@   defines res1 != nil ==> metaPutFailed()
+//@ callrule c09_blob_after_metadata in *
 //@   property C09, C15
 //@   callee (common.Storage).Delete
 //@   pureeffect
-//@   requires [blob_deleted_only_after_metadata_removal] metaRemoved()
+//@   requires [blob_deleted_only_after_metadata_removal] metaRemoved() || metaPutFailed()
 //@   defines blobDeleteAttempted()
 //@ callrule c09_delete_collaborators in (*Shard).deleteObjs
 //@   property C09, C15
